@@ -24,7 +24,8 @@ SYMS40 = sorted(set([0x00, 0x01, 0x02, 0x03, 0x04, 0x05, 0x06, 0x07, 0x08, 0x0a,
 def describe(tier):
     d2 = "2" if tier == "quick" else "3 (full alphabet to depth 2, reduced alphabet to depth 3 in quick)"
     return {
-        "rule": "layer A: all sequences of well-formed frames (LEN-less STREAM/DATAGRAM only last) over the instance "
+        "rule": "layer T: every truncation of every frame instance, incl. frames whose range-count / length fields hold the "
+                "maximum of each varint width; layer A: all sequences of well-formed frames (LEN-less STREAM/DATAGRAM only last) over the instance "
                 "alphabet, full alphabet to depth 2 and a reduced one-width alphabet to depth 3 (thorough: full "
                 "alphabet to depth 2, medium alphabet to depth 3); layer B: all byte strings of "
                 "length <= 4 over 40 symbols" + ("" if tier == "quick" else ", of length 5 over the same 40 symbols and of length <= 3 over all 256 byte values") +
@@ -53,7 +54,32 @@ def _alpha(kind):
     return [x for x in quicframes.alphabet(True) if "/w2" not in x[0] and "/w4" not in x[0]]
 
 
+def lying_frames():
+    """frames whose count / length fields promise more than the packet holds (every varint width at its maximum), for
+    the truncation layer"""
+    from ..model.rfc9000 import varint
+    out = []
+    maxes = [(1, 63), (2, 16383), (4, (1 << 30) - 1), (8, (1 << 62) - 1)]
+    for w, mx in maxes:
+        v = varint(mx, w)
+        one = varint(1, 1)
+        out.append((f"ACK/range_count=max/w{w}", b"\x02" + one + one + v + one + one + one))
+        out.append((f"ACK_ECN/range_count=max/w{w}", b"\x03" + one + one + v + one))
+        out.append((f"CRYPTO/len=max/w{w}", b"\x06" + one + v + b"abc"))
+        out.append((f"NEW_TOKEN/len=max/w{w}", b"\x07" + v + b"abc"))
+        out.append((f"STREAM/len=max/w{w}", b"\x0a" + one + v + b"abc"))
+        out.append((f"STREAM/off=max,len=max/w{w}", b"\x0e" + one + v + v + b"abc"))
+        out.append((f"CONNECTION_CLOSE/reason=max/w{w}", b"\x1c" + one + one + v + b"abc"))
+        out.append((f"DATAGRAM/len=max/w{w}", b"\x31" + v + b"abc"))
+        out.append((f"GENERIC/len=max/w{w}", b"\x21" + v + b"abc"))
+    out.append(("NEW_CONNECTION_ID/cidlen=255", b"\x18" + b"\x01\x00" + b"\xff" + b"C" * 30))
+    return out
+
+
 def cases(tier, seed):
+    n_t = len(quicframes.alphabet(True)) + len(lying_frames())
+    for i in range(0, n_t, 16):
+        yield {"layer": "T", "lo": i, "hi": min(n_t, i + 16)}
     # layer A: one case per first frame
     plan = [("full", 2), ("reduced", 3)] if tier == "quick" else [("full", 2), ("medium", 3)]
     for kind, depth in plan:
@@ -169,7 +195,57 @@ def run_case(case):
     pkt = _pkt()
     if case["layer"] == "A":
         return run_a(case, parse_frames, pkt)
+    if case["layer"] == "T":
+        return run_t(case, parse_frames, pkt)
     return run_b(case, parse_frames, pkt)
+
+
+def run_t(case, parse_frames, pkt):
+    """every prefix (truncation) of every frame instance - well-formed ones and ones whose count/length fields promise
+    more than the packet holds - alone and after a PING, optionally followed by ff bytes"""
+    inst = [(l, b) for l, b, _ in quicframes.alphabet(True)] + lying_frames()
+    fails = []
+    n = parsed = 0
+    outcomes = set()
+    sample = None
+    for label, b in inst[case["lo"]:case["hi"]]:
+        for cut in range(1, len(b) + 1):
+            for prefix in (b"", b"\x01"):
+                for suffix in (b"", b"\xff" * 9):
+                    if suffix and cut != len(b):
+                        continue
+                    data = prefix + b[:cut] + suffix
+                    st, res = guarded_parse(parse_frames, data, pkt)
+                    n += 1
+                    sig = {"layer": "T", "frame": label, "cut": cut, "prefix": prefix.hex(), "suffix": bool(suffix)}
+                    if st == "hang":
+                        fails.append({"kind": "parser_hang", "sig": {"layer": "T", "frame": label}, "sub": {"bytes": data.hex()},
+                                      "detail": f"no termination within the step bound on {data.hex()}"})
+                        continue
+                    if st == "raise":
+                        outcomes.add(type(res).__name__)
+                        continue
+                    parsed += 1
+                    if len(res) > len(data):
+                        fails.append({"kind": "more_frames_than_bytes", "sig": sig, "detail": data.hex()})
+                    for f in res:
+                        for a in DATA_ATTRS:
+                            v = getattr(f, a, None)
+                            if isinstance(v, (bytes, bytearray)) and bytes(v) not in data:
+                                fails.append({"kind": "invented_data", "sig": sig, "detail": f"{type(f).__name__}.{a} = {bytes(v).hex()}"})
+                        if isinstance(getattr(f, "ack_ranges", None), list) and len(f.ack_ranges) > len(data):
+                            fails.append({"kind": "invented_data", "sig": {"layer": "T", "frame": label},
+                                          "detail": f"{len(f.ack_ranges)} ACK ranges reported from {len(data)} bytes"})
+                    if sample is None and cut < len(b):
+                        sample = {"frame": label, "truncated_to": cut, "bytes": data.hex(), "parsed": [type(f).__name__ for f in res]}
+    uniq = {}
+    for f in fails:
+        uniq.setdefault(str((f["kind"], f["sig"])), f)
+    r = {"n": n, "fails": list(uniq.values())[:40], "nontrivial_n": parsed, "outcomes": sorted(outcomes),
+         "count": {"states": n, "transitions": n, "layer_t_inputs": n}}
+    if sample:
+        r["sample"] = sample
+    return r
 
 
 def run_a(case, parse_frames, pkt):
